@@ -17,9 +17,9 @@ pub enum Region { Source, Pool, Persist, Frame }
 // `&'a str` held by ArenaCow::Borrowed: where its bytes live, and whether it is a view of some ArenaString's bytes (ArenaString::as_arena_str)
 #[derive(Clone, Copy)]
 pub struct SRef { pub region: Ghost<Region>, pub of_owned: Ghost<bool> }
-// ArenaString
-pub struct SBuf { pub region: Ghost<Region> }
-pub struct ArenaM { pub region: Ghost<Region> }
+// ArenaString.  `epoch` is meaningful for Frame strings only: the frame epoch (number of resets seen by relocate_return_value's frame) it was allocated in
+pub struct SBuf { pub region: Ghost<Region>, pub epoch: Ghost<nat> }
+pub struct ArenaM { pub region: Ghost<Region>, pub epoch: Ghost<nat> }
 pub struct PoolM { pub persistent: ArenaM }
 pub struct CmdV { pub region: Ghost<Region> }    // ProcessCommand: all its strings/vectors live in one arena (maintained by unit cmd_store)
 pub struct ResV { pub region: Ghost<Region> }    // ProcessResult
@@ -29,7 +29,7 @@ MODEL = r'''
 impl SBuf {
     // ArenaString::from_str(arena, s): a fresh string in `arena`
     #[verifier::external_body]
-    pub fn from_str(arena: &ArenaM, s: &SBuf) -> (r: SBuf) ensures r.region@ == arena.region@ { unimplemented!() }
+    pub fn from_str(arena: &ArenaM, s: &SBuf) -> (r: SBuf) ensures r.region@ == arena.region@, r.epoch@ == arena.epoch@ { unimplemented!() }
     // s.arena(): the allocator the string reports.  Pool slots are carved out of the persistent arena and report it.
     #[verifier::external_body]
     pub fn in_arena(&self, a: &ArenaM) -> (r: bool) ensures a.region@ == Region::Persist ==> r == (self.region@ == Region::Persist || self.region@ == Region::Pool) { unimplemented!() }
@@ -100,6 +100,37 @@ impl<'x> IntoIterator for &'x ArrV {
     { self.items.iter() }
 }
 
+// ---- relocate_return_value: the frame is reset to the mark taken at call entry; whatever is returned must survive that ----------
+pub struct Rt { pub arena: ArenaM, pub frame: ArenaM, pub pool: PoolM }
+impl Rt {
+    pub open spec fn wf(&self) -> bool { self.arena.region@ == Region::Persist && self.frame.region@ == Region::Frame && self.pool.wf() }
+}
+impl ArenaM {
+    #[verifier::external_body]
+    pub fn offset(&self) -> (r: usize) { unimplemented!() }
+    // `unsafe { arena.reset(mark) }`: everything allocated in this arena since the mark is gone; a new epoch starts
+    #[verifier::external_body]
+    pub fn reset(&mut self, mark: usize) ensures final(self).region@ == old(self).region@, final(self).epoch@ == old(self).epoch@ + 1 { unimplemented!() }
+}
+#[verifier::external_body]
+fn drop_sbuf(s: SBuf) { unimplemented!() }
+// the returned value as relocate_return_value may receive it: borrowed strings never view frame bytes (they view source text, or
+// persistent bytes), hosts are wf; owned strings, arrays and hosts may live anywhere
+pub open spec fn ret_wf(v: Value) -> bool {
+    match v {
+        Value::Str(ArenaCow::Borrowed(s)) => s.region@ != Region::Frame,
+        Value::Host(h) => h.wf(),
+        Value::Array(a) => wf(v),
+        _ => true,
+    }
+}
+// nothing of v is frame memory from before the reset: either outside the frame, or allocated in frame epoch e (after the reset)
+pub open spec fn survives(v: Value, e: nat) -> bool {
+    match v {
+        Value::Str(ArenaCow::Owned(b)) => b.region@ != Region::Frame || b.epoch@ == e,
+        _ => outlives(v),
+    }
+}
 pub open spec fn cow_region(c: ArenaCow) -> Region { match c { ArenaCow::Borrowed(s) => s.region@, ArenaCow::Owned(b) => b.region@ } }
 // the input invariant: no borrowed view of an owned string is held in a value (established by clone_into, repaired by f06a762), hosts wf
 pub open spec fn wf(v: Value) -> bool decreases v {
@@ -188,7 +219,8 @@ UNIT = VUnit(
            sig="pub fn promote(self, pool: &PoolM, frame: &ArenaM) -> (r: Value)",
            expect_sig=r"fn promote\(self, pool: &PoolSet<'a>, frame: &Arena\) -> Self",
            requires=["pool.wf()", "frame.region@ == Region::Frame", "wf(self)"],
-           ensures=["outlives(r)"],
+           ensures=["outlives(r)",
+                    "(self is Str <==> r is Str) && (self is Array <==> r is Array) && (self is Host <==> r is Host) && (self is Number <==> r is Number) && (self is Bool <==> r is Bool) && (self is Null <==> r is Null)"],
            loops={1: {"invariant": ["pool.wf()", "frame.region@ == Region::Frame", "promoted.store@ == Region::Persist",
                                     "forall|i: int| 0 <= i < promoted.items@.len() ==> outlives(#[trigger] promoted.items@[i])",
                                     "forall|i: int| 0 <= i < vstd::std_specs::iter::IteratorSpec::remaining(&it.iter).len() ==> wf(#[trigger] vstd::std_specs::iter::IteratorSpec::remaining(&it.iter)[i])"]}},
@@ -209,5 +241,33 @@ UNIT = VUnit(
            attrs="#[verifier::exec_allows_no_decreases_clause]\n",
            vacuity="-", real_name="Value::clone_into"),
         Raw("}"),
+        Fn("relocate_return_value", impl="impl Runtime",
+           sig="fn relocate_return_value(me: &mut Rt, val: Value, frame_offset: usize) -> (r: Value)",
+           expect_sig=r"fn relocate_return_value\(&self, val: Value<'a>, frame_offset: usize\) -> Value<'a>",
+           requires=["old(me).wf()", "ret_wf(val)"],
+           ensures=["final(me).frame.epoch@ == old(me).frame.epoch@ + 1",            # the frame is reset exactly once, on every path
+                    "survives(r, final(me).frame.epoch@)"],
+           rewrites=[Rw("R5", r"!std::ptr::eq\(s\.arena\(\), self\.arena\)", "!s.in_arena(&me.arena)", min_matches=1),
+                     Rw("R8", r"self\.arena\.offset\(\)", "me.arena.offset()", min_matches=1),
+                     Rw("R8", r"ArenaString::from_str\(self\.(arena|frame), (\w+)\.as_str\(\)\)", r"SBuf::from_str(&me.\1, &\2)", min_matches=2),
+                     Rw("R8", r"drop\((s|staged)\);", r"drop_sbuf(\1);", min_matches=2),
+                     Rw("R3", r"unsafe \{ self\.(frame|arena)\.reset\((\w+)\) \};", r"me.\1.reset(\2);", min_matches=4),
+                     Rw("R9", r"val\.promote\(&self\.pool, self\.frame\)", "val.promote(&me.pool, &me.frame)", min_matches=1)],
+           vacuity="-", real_name="Runtime::relocate_return_value"),
+        # binding an argument to a parameter: a borrowed view of a pool slot gets its own slot (the caller may overwrite the owner while
+        # the callee runs), and an array / host value is promoted when a frame is active (it can grow inside a loop of the callee,
+        # whose iterations reset the frame) -- fix 0c46f42
+        Block("bind_parameter", within="eval_function_call", impl="impl Runtime",
+              anchor=r"let arg = match arg ",
+              sig="fn bind_parameter(me: &Rt, arg: Value, has_frame: bool) -> (r: Value)",
+              prologue="    let arg = match arg {", epilogue="    };\n    arg",
+              requires=["me.wf()", "wf(arg)"],
+              ensures=["r matches Value::Str(ArenaCow::Borrowed(s)) ==> s.region@ != Region::Pool",
+                       "has_frame && (r is Array || r is Host) ==> outlives(r)"],
+              rewrites=[Rw("R5", r"self\.pool\.contains\(s\.as_ptr\(\)\)", "me.pool.contains_ref(&s)", min_matches=1),
+                        Rw("R8", r"self\.pool\.alloc_str\(s\)", "me.pool.alloc_str(&s)", min_matches=1),
+                        Rw("R9", r"arg\.promote\(&self\.pool, self\.frame\)", "arg.promote(&me.pool, &me.frame)", min_matches=1)],
+              expand_or_guards=1,
+              real_name="Runtime::eval_function_call (argument -> parameter binding)"),
     ],
 )
